@@ -7,7 +7,7 @@ import numpy as np
 from hypothesis import strategies as st
 
 from .. import repo, strategies as S, trcases as TR
-from ..core import SubCheck, Fail, Discard, metric, target
+from ..core import SubCheck, Fail, Discard, metric, target, is_seq
 from ..oracles import helmert_ref as H
 
 RULE = ("every shipped set with a date reference epoch (complete enumeration x epoch fan) and random sets with random rates; "
@@ -66,7 +66,7 @@ def check_linear(case):
     X = case["X"]
     p, dt = _advanced(tr, epoch, case["trans"])
     got = tf.conform14(X[0], X[1], X[2], epoch, tr)
-    if not (isinstance(got, tuple) and len(got) == 4):
+    if not is_seq(got, 4):
         raise Fail("conform14 did not return (x, y, z, vcv)", observed=repr(got))
     want = H.apply_float(p, X)
     d = _dist(got[:3], want)
@@ -88,16 +88,16 @@ def _same_cov(a, b):
     if a is None or b is None:
         return a is None and b is None
     a, b = np.asarray(a, dtype=float), np.asarray(b, dtype=float)
-    return a.shape == b.shape and TR.fro(a - b) <= 1e-12 * (TR.fro(b) + 1e-300)
+    return a.shape == b.shape and TR.fro(a - b) <= 1e-9 * (TR.fro(b) + 1e-300)
 
 
 def _with_covariance(tf, tr, epoch, X, V, plain):
     """A covariance travelling with the point: the point is transformed as without it, and the covariance is what the
     7-parameter operation returns for the set brought to the epoch (conform14 is that operation)."""
     got = tf.conform14(X[0], X[1], X[2], epoch, tr, V)
-    if not (isinstance(got, tuple) and len(got) == 4):
+    if not is_seq(got, 4):
         raise Fail("conform14 with a covariance did not return (x, y, z, vcv)", observed=repr(got))
-    if tuple(float(v) for v in got[:3]) != tuple(float(v) for v in plain[:3]):
+    if not _dist(got[:3], plain[:3]) <= 2e-6:
         raise Fail("supplying a covariance to conform14 changes the transformed point", expected=plain[:3], observed=got[:3],
                    bucket="conform14 vcv changes point")
     ref = tf.conform7(X[0], X[1], X[2], tr + epoch, V)
@@ -141,12 +141,12 @@ def check_atrf(case):
                              (tf.transform_gda2020_to_atrf2014, -c.atrf2014_to_gda2020, "transform_gda2020_to_atrf2014")):
             w = fn(X[0], X[1], X[2], epoch, V)
             r = tf.conform14(X[0], X[1], X[2], epoch, tset, V)
-            if tuple(w[:3]) != tuple(r[:3]) or not _same_cov(w[3], r[3]):
+            if not _dist(w[:3], r[:3]) <= 2e-6 or not _same_cov(w[3], r[3]):
                 raise Fail("%s with a covariance is not conform14 with the (negated) plate-motion set and that covariance" % nm,
                            expected={"xyz": r[:3], "vcv": r[3]}, observed={"xyz": w[:3], "vcv": w[3]}, bucket="atrf wrapper vcv")
     fwd = tf.transform_atrf2014_to_gda2020(X[0], X[1], X[2], epoch)
     ref = tf.conform14(X[0], X[1], X[2], epoch, c.atrf2014_to_gda2020)
-    if tuple(fwd[:3]) != tuple(ref[:3]):
+    if not _dist(fwd[:3], ref[:3]) <= 2e-6:
         raise Fail("transform_atrf2014_to_gda2020 is not conform14 with the plate-motion set", expected=ref[:3], observed=fwd[:3])
     p, dt = _advanced(c.atrf2014_to_gda2020, epoch)
     want = H.apply_float(p, X)
@@ -156,7 +156,7 @@ def check_atrf(case):
                    expected=want, observed={"xyz": fwd[:3], "dist_m": d0})
     back = tf.transform_gda2020_to_atrf2014(fwd[0], fwd[1], fwd[2], epoch)
     ref2 = tf.conform14(fwd[0], fwd[1], fwd[2], epoch, -c.atrf2014_to_gda2020)
-    if tuple(back[:3]) != tuple(ref2[:3]):
+    if not _dist(back[:3], ref2[:3]) <= 2e-6:
         raise Fail("transform_gda2020_to_atrf2014 is not conform14 with the negated plate-motion set", expected=ref2[:3], observed=back[:3])
     d = _dist(back[:3], X)
     bound = H.second_order_bound(p, X) + 2e-6
